@@ -63,5 +63,22 @@ ScopeEnvs == {Env(l, <<>>, <<>>, <<>>) : l \in {<<"healthy", "healthy">>, <<"unh
 ScopeStep == seq = 0 /\ \E ev \in ScopeEvents, env \in ScopeEnvs : Process(ev, env)
 ScopeSpec == ScopeInit /\ [][ScopeStep]_vars
 
+(***************************************************************************)
+(* C03 / C14 step properties from a rich set of engine states (not only     *)
+(* those reachable within the depth bound): every event x environment of    *)
+(* the alphabet, one step, trading enabled and disabled, mixed link health. *)
+(***************************************************************************)
+RInstA == {InstOf("c1", k, n, TRUE) : k \in Kinds, n \in {0, 2}}
+RInstE == {InstOf("c2", k, n, p) : k \in {"U", "Open"}, n \in {0, -1}, p \in BOOLEAN}
+ConnSet == {[global |-> IF m = "Healthy" /\ a = "Healthy" THEN "Healthy" ELSE "Reconnecting",
+             ex |-> << [market |-> m, account |-> a], [market |-> "Healthy", account |-> "Healthy"] >>] :
+               m \in {"Healthy", "Reconnecting"}, a \in {"Healthy", "Reconnecting"}}
+RichInit == /\ st \in {[trading |-> tr, conn |-> cn, inst |-> <<a, InstInit, InstInit, InstInit, e>>] :
+                         tr \in {"Enabled", "Disabled"}, cn \in ConnSet, a \in RInstA, e \in RInstE}
+            /\ seq = 0 /\ tick = NoTick /\ dl = [x \in 1..NEX |-> {}]
+            /\ last = [ev |-> NoEvent, env |-> NoEnv]
+RichStep == seq = 0 /\ \E ev \in MCEvents, env \in MCEnvs : Process(ev, env)
+RichSpec == RichInit /\ [][RichStep]_vars
+
 Bound == seq <= MaxSeq
 =============================================================================
